@@ -43,8 +43,10 @@ ELEMENT = [
             if res__ is Ok && !kf_scala_default(*f) {
                 let mid = w1.subrange(w0.len() as int, w1.len() as int);
                 assert(w1 =~= w0 + mid);
-                let pre = mid + wfmt_write_element_0_p0();
-                let tail = wfmt_write_element_0_p3();
+                let pre = mid + wfmt_write_element_1_p0();
+                let tail = wfmt_write_element_1_p3();
+                // the override case: `Option[` override `]` for an Option<T> field (literal of the format! site)
+                fmt_write_element_0_p0_chars(); fmt_write_element_0_p1_chars(); reveal_strlit("Option["); reveal_strlit("]");
                 assert(wit3(pre, ty@, tail));
                 assert(w@ =~= w0 + pre + member(Lang::Scala, ident_of(f.id.renamed@), ty@, *f) + tail);
             }
